@@ -32,7 +32,7 @@ def main():
                 continue
             rc, out = sh("go build ./...", WT)
             if rc != 0:
-                print(name, "DOES-NOT-BUILD", out[-300:])
+                print(name, "DOES-NOT-BUILD", out[-120:])
                 continue
             scratch = tempfile.mkdtemp(prefix="fpbsweep.")
             shutil.copy("/verif/known_findings.txt", scratch)
@@ -44,7 +44,7 @@ def main():
                     hits.append(m.group(1) + " " + m.group(2)[:110])
             shutil.rmtree(scratch, ignore_errors=True)
             if len(re.findall(r"tier=quick obligations=", out)) != 20:
-                hits.append("CHECKER-DID-NOT-COMPLETE " + out[-300:].replace("\n", " | "))
+                hits.append("CHECKER-DID-NOT-COMPLETE " + out[-120:].replace("\n", " | "))
             total += len(hits)
             print(name, "silent" if not hits else "ALARMS %d" % len(hits))
             for h in sorted(set(hits)):
